@@ -214,6 +214,8 @@ MENU = [
     ("ne", {(1,): 1, (2,): -3}, True),                        # != whose range reaches much further below 0 than above
     ("eq", {(2,): 2, (0, 1): -1}, True),                      # near miss of the z == x y form: opposite signs, different magnitudes
     ("eq", {(2,): 1, (0, 1): 1}, True),                       # near miss of the z == x y form: equal coefficients
+    ("gt", {(2,): 1, (): 1}, True),                           # decided by its bounds alone: always satisfied (adds nothing, records itself)
+    ("lt", {(1,): 1, (): 1}, True),                           # decided by its bounds alone: never satisfiable
 ]
 SPIN_MENU = [
     ("le", {(0,): 1, (1,): 1, (2,): 1, (): -1}, True),
@@ -230,6 +232,7 @@ SPIN_MENU = [
     ("le", {(0,): 1, (): 2}, True),                           # never satisfiable
     ("eq", {(2,): -1, (0,): 1, (1,): 1, (0, 1): -1}, True),   # boolean image 2 b_z - 4 b_x b_y: near miss of the z == x y form
     ("eq", {(): 3, (2,): -2, (0,): -1, (1,): -1, (0, 1): 1}, True),   # boolean image 4 (b_z + b_x b_y)
+    ("gt", {(2,): 1, (): 2}, True),                           # decided by its bounds alone: always satisfied
 ]
 OBJECTIVE = {(0,): 1, (1, 2): -2, (): 0.5}
 MAX_SEQ_VARS = 16
